@@ -9,6 +9,8 @@ from ..facts import default_of, guards_of, returns_of, enclosing_loops
 from ..rules import canon as C
 from ..rules.label import analyse as label_analyse
 from ..rules.memo import local_memo_sites
+from ..rules.unionfind import check_merge
+from ..rules.label import _total_key
 
 TWINS_FILES = ["synkit/Graph/canon_graph.py", "synkit/Graph/Canon/canon_graph.py"]
 NA = "synkit/Graph/Canon/nauty.py"
@@ -347,7 +349,10 @@ def nauty(rep):
         for kind, node, msg in s.problems:
             rep.ob("O8.4", "R1", rf, False, f"[{kind}] {norm(node)[:50]}", msg, node=node)
     srt = [l for l in walk_local(rf.node) if isinstance(l, ast.For) and isinstance(l.iter, ast.Call) and call_name(l.iter) == "sorted" and "sigs" in norm(l.iter)]
-    rep.ob("O8.4", "R12", rf, len(srt) == 1, srt[0].iter if srt else "sorted(sigs)", "split cells are ordered by signature")
+    rep.ob("O8.4", "R12", rf, len(srt) == 1 and _total_key(srt[0].iter), srt[0].iter if srt else "sorted(sigs)", "split cells are ordered by their full signatures")
+    uo = rep.f(NA, N + "compute_orbits.<locals>.union_orbits")
+    for ok_, msg_, facts_ in check_merge(uo.node):
+        rep.ob("O8.4", "R12", uo, ok_, msg_, "merging two orbit slots keeps orbit_map exact (union at the surviving slot, members of the emptied slot re-pointed)", facts_, node=uo.node)
     gs = rep.f(NA, N + "graph_signature")
     gd = local_defs(gs.node)
     ok = norm(origin(gd, ast.Name(id="label", ctx=ast.Load()))) == "self._build_label(G_canon, sorted(G_canon.nodes()))" and \
